@@ -136,13 +136,20 @@ def run(R):
                     [pin.loc()])
     if not pg:
         R.violation("C01.index", "extract|pattern-lookup-missing", "no lookup of a pattern's result by name in the extraction subgraph", [eur.loc()])
+    # pg was collected on raw functions; when the lookup moved into a new accessor the view of extract_using_regex contains it
+    pgv = [(eur, c) for c in eur.calls if re.search(r"(hash::map::HashMap|btree::map::BTreeMap)::get$", short(c.name)) and
+           any("RegexResult" in t for t in (c.func.get("res_targs") or c.targs))]
+    if pgv:
+        pg = pgv
     for g, c in pg:
         if g.key != eur.key:
             R.violation("C01.index", "extract|pattern-lookup-elsewhere", "pattern results are looked up in %s instead of by the column's reference in "
                                                                          "extract_using_regex" % g.path, [c.loc()])
             continue
-        os_ = F.origins(eur, c.args[1], depth=8, through_calls=False)
-        if os_ and all(o.kind == "arg" and "pattern_name" in place_fields(o.place) for o in os_):
+        leaves = F.origins_ip(P, eur, c.args[1], depth=2)
+        os_ = [o for h, o in leaves if not (o.kind == "call" and F.TRANSPARENT.search(short(o.call.name)))]
+        if (os_ and all(o.kind == "arg" and o.place is not None and "pattern_name" in place_fields(o.place) for o in os_)) or \
+                ("pattern_name" in F.provenance_fields(eur, c.args[1]) and os_ and all(o.kind == "arg" for o in os_)):
             R.ok("C01.index", "extract_using_regex|pattern", "pattern lookup by pattern.pattern_name", c.loc())
         else:
             R.violation("C01.index", "extract_using_regex|pattern", "the pattern lookup does not use the reference's pattern_name", [c.loc()])
